@@ -7,8 +7,8 @@
    PROPERTY LEVEL (the only source of verdicts; exactly as loose as the statement)
      ScheduleOK(vals, lo, one)  a sequence of schedule values for attempts 1, 2, ... starts at 1, stays within
                                 [lo, 1] and never increases.
-     Judge(base, c, n, flag, obs)  obs is what a grader call with attempt n returned, base what the same call
-                                returns without the feature, c the schedule's value for the attempt that counts
+     Judge(base, v, n, flag, obs)  obs is what a grader call with attempt n returned, base what the same call
+                                returns without the feature, v the schedule's value for the attempt that counts
                                 (attempts below 1 count as 1):  every grade is base grade * c, ok is recomputed from
                                 the new grade, zero grades stay zero, the original messages survive and the note
                                 'Maximum credit for attempt #n is p%.' occurs exactly once iff flag and some grade was
@@ -59,18 +59,27 @@ ReciprocalCands(n) == RoundCands(Unit, n)
 ReciprocalValue(n) == RoundHalfEven(Unit, n)
 
 AuthorValue(s, n) == s.vals[IF n > Len(s.vals) THEN Len(s.vals) ELSE n]
+\* an author-defined callable may return ANY number: values with up to 9 decimals, in 1e-9 units (Fine per 1e-4 unit).
+\* The documented procedure uses the value rounded to 4 decimals.
+Fine == 100000
+Author9(vals9, ty) == [k |-> "authorfine", vals9 |-> vals9, ty |-> ty]
+Author9Raw(s, n) == s.vals9[IF n > Len(s.vals9) THEN Len(s.vals9) ELSE n]
 
 \* n >= 1 everywhere below (the grader clamps before it asks the schedule)
 Cands(s, n) == CASE s.k = "linear" -> LinearCands(s, n)
                  [] s.k = "geometric" -> GeometricCands(s.a, n)
                  [] s.k = "reciprocal" -> ReciprocalCands(n)
                  [] s.k = "author" -> {AuthorValue(s, n)}
+                 [] s.k = "authorfine" -> RoundCands(Author9Raw(s, n), Fine)
                  [] s.k = "off" -> {Unit}
 Value(s, n) == CASE s.k = "linear" -> LinearValue(s, n)
                  [] s.k = "geometric" -> GeometricValue(s.a, n)
                  [] s.k = "reciprocal" -> ReciprocalValue(n)
                  [] s.k = "author" -> AuthorValue(s, n)
+                 [] s.k = "authorfine" -> RoundHalfEven(Author9Raw(s, n), Fine)
                  [] s.k = "off" -> Unit
+\* what the schedule returns, in 1e-9 units (built-in schedules and 4-decimal tables return grid values)
+Raw9(s, n) == IF s.k = "authorfine" THEN Author9Raw(s, n) ELSE Value(s, n) * Fine
 Lo(s) == IF s.k = "linear" THEN s.min ELSE 0
 
 \* first attempt at which a sequence of observed values (attempts 1, 2, ...) leaves the documented candidates, 0 if
@@ -106,20 +115,35 @@ NewGrade8(e, c) == IF e.g > 0 THEN e.g * c ELSE 0              \* positive grade
 Reduced(base, c) == \E i \in DOMAIN base : NewGrade8(base[i], c) < base[i].g * Unit
 NoteDue(base, c, flag) == flag /\ Reduced(base, c)
 
-\* observation: [raised, entries : Seq([g8, exact, ok, kept]), notes (number of occurrences of the note text in the
-\* whole result), noteN, noteP (p in 0.01 percent units = 1e-4 credit units), notePexact]
-Judge(base, c, n, flag, obs) ==
+\* The schedule's value v is known as an interval [v.lo, v.hi] in 1e-9 units (lo = hi when the value has at most 9
+\* decimals).  The statement says grades are multiplied by "the schedule's value"; the documented procedure multiplies
+\* by the value rounded to 4 decimals.  Both readings are accepted: either all grades are base * c for one 4-decimal
+\* rounding c of v (both neighbours at a tie), or all grades equal base * v itself (obs.rawall, a fact established by
+\* the adapter in floating point).  Whether "some grade was reduced" is decided on what was actually returned:
+\* entry.lt says the returned grade is below the base grade.  So a value such as 0.99999, which the procedure rounds
+\* to 1, must leave the grades alone AND must not produce the note.
+V(c) == [lo |-> c * Fine, hi |-> c * Fine]
+CredsOf(v) == RoundCands(v.lo, Fine) \cup RoundCands(v.hi, Fine)
+OkObs(e) == IF e.is0 THEN "false" ELSE IF e.is1 THEN "true" ELSE "partial"
+FitsCredit(base, c, obs) == \A i \in DOMAIN base : LET e == obs.entries[i] g == NewGrade8(base[i], c) IN
+                               e.exact /\ e.g8 = g /\ e.lt = (g < base[i].g * Unit) /\ e.is0 = (g = 0) /\ e.is1 = (g = Unit2)
+ObsReduced(obs) == \E i \in DOMAIN obs.entries : obs.entries[i].lt
+\* observation: [raised, rawall, entries : Seq([g8, exact, ok, kept, lt, is0, is1]), notes (number of occurrences of the
+\* note text in the whole result), noteN, noteP (p in 0.01 percent units = 1e-4 credit units), notePexact]
+Judge(base, v, n, flag, obs) ==
     IF obs.raised # "none" THEN "raised"
     ELSE IF Len(obs.entries) # Len(base) THEN "length"
-    ELSE IF \E i \in DOMAIN base : base[i].g = 0 /\ ~(obs.entries[i].exact /\ obs.entries[i].g8 = 0) THEN "zero_changed"
-    ELSE IF \E i \in DOMAIN base : ~(obs.entries[i].exact /\ obs.entries[i].g8 = NewGrade8(base[i], c)) THEN "grade"
-    ELSE IF \E i \in DOMAIN base : obs.entries[i].ok # OkOf8(NewGrade8(base[i], c)) THEN "ok_not_recomputed"
+    ELSE IF \E i \in DOMAIN base : base[i].g = 0 /\ ~(obs.entries[i].exact /\ obs.entries[i].g8 = 0 /\ obs.entries[i].is0) THEN "zero_changed"
+    ELSE IF ~(obs.rawall \/ \E c \in CredsOf(v) : FitsCredit(base, c, obs)) THEN "grade"
+    ELSE IF \E i \in DOMAIN base : obs.entries[i].ok # OkObs(obs.entries[i]) THEN "ok_not_recomputed"
     ELSE IF \E i \in DOMAIN base : ~obs.entries[i].kept THEN "message_lost"
-    ELSE IF NoteDue(base, c, flag) /\ obs.notes = 0 THEN "note_missing"
-    ELSE IF ~NoteDue(base, c, flag) /\ obs.notes > 0 THEN "note_unexpected"
+    ELSE IF flag /\ ObsReduced(obs) /\ obs.notes = 0 THEN "note_missing"
+    ELSE IF ~(flag /\ ObsReduced(obs)) /\ obs.notes > 0 THEN "note_unexpected"
     ELSE IF obs.notes > 1 THEN "note_repeated"
     ELSE IF obs.notes = 1 /\ obs.noteN \notin {n, Eff(n)} THEN "note_attempt_number"
-    ELSE IF obs.notes = 1 /\ ~(obs.notePexact /\ Abs(obs.noteP - c) <= 5) THEN "note_percentage"
+    ELSE IF obs.notes = 1 /\ ~(obs.notePexact /\ obs.noteP >= 0 /\ obs.noteP <= 2 * Unit
+                                /\ (\/ \E c \in CredsOf(v) : Abs(obs.noteP - c) <= 5
+                                    \/ Abs(obs.noteP * Fine - v.lo) <= 5 * Fine)) THEN "note_percentage"
     ELSE "ok"
 JudgeMissing(raised) == IF raised = "ConfigError" THEN "ok" ELSE "missing_attempt_not_config_error"
 
@@ -127,8 +151,10 @@ JudgeMissing(raised) == IF raised = "ConfigError" THEN "ok" ELSE "missing_attemp
 Percent(c) == 10 * RoundHalfEven(c, 10)                        \* one decimal of a percent, in 0.01 percent units
 Canonical(base, c, n, flag) ==
     [raised |-> "none",
-     entries |-> [i \in DOMAIN base |-> [g8 |-> NewGrade8(base[i], c), exact |-> TRUE,
-                                         ok |-> OkOf8(NewGrade8(base[i], c)), kept |-> TRUE]],
+     rawall |-> FALSE,                                        \* the documented result stands on the rounded reading
+     entries |-> [i \in DOMAIN base |-> LET g == NewGrade8(base[i], c) IN
+                                        [g8 |-> g, exact |-> TRUE, ok |-> OkOf8(g), kept |-> TRUE,
+                                         lt |-> g < base[i].g * Unit, is0 |-> g = 0, is1 |-> g = Unit2]],
      notes |-> IF NoteDue(base, c, flag) THEN 1 ELSE 0,
      noteN |-> IF NoteDue(base, c, flag) THEN Eff(n) ELSE 0,
      noteP |-> IF NoteDue(base, c, flag) THEN Percent(c) ELSE 0,
